@@ -1,25 +1,43 @@
-(* entry point: cases on stdin (or file argv[1]), observations on stdout *)
+(* entry point. batch: driver <cases> <out>; interactive: driver --serve
+   (one case per stdin line, one observation per stdout line; a model that
+   needs an external component prints "EXT <request>" and reads one answer
+   line) *)
+let handle line =
+  match Driver.split_ws line with
+  | id :: kind :: args ->
+    let obs =
+      try
+        (match Hashtbl.find_opt Driver.handlers kind with
+         | Some f -> f args
+         | None -> "unknown-kind")
+      with
+      | Stack_overflow -> "model-stack-overflow"
+      | Out_of_memory -> "model-oom"
+      | Failure m -> "model-failure:" ^ m in
+    Some (id ^ " " ^ obs)
+  | _ -> None
+
 let () =
-  let ic = if Array.length Sys.argv > 1 then open_in Sys.argv.(1) else stdin in
-  let oc = if Array.length Sys.argv > 2 then open_out Sys.argv.(2) else stdout in
-  (try
-    while true do
-      let line = input_line ic in
-      if line <> "" && line.[0] <> '#' then begin
-        match Driver.split_ws line with
-        | id :: kind :: args ->
-          let obs =
-            try
-              (match Hashtbl.find_opt Driver.handlers kind with
-               | Some f -> f args
-               | None -> "unknown-kind")
-            with
-            | Stack_overflow -> "model-stack-overflow"
-            | Out_of_memory -> "model-oom"
-            | Failure m -> "model-failure:" ^ m in
-          output_string oc (id ^ " " ^ obs ^ "\n")
-        | _ -> ()
-      end
-    done
-  with End_of_file -> ());
-  close_out oc
+  if Array.length Sys.argv > 1 && Sys.argv.(1) = "--serve" then begin
+    (try
+      while true do
+        let line = input_line stdin in
+        (match handle line with
+         | Some o -> print_string (o ^ "\n"); flush stdout
+         | None -> print_string "?\n"; flush stdout)
+      done
+    with End_of_file -> ())
+  end else begin
+    let ic = if Array.length Sys.argv > 1 then open_in Sys.argv.(1) else stdin in
+    let oc = if Array.length Sys.argv > 2 then open_out Sys.argv.(2) else stdout in
+    (try
+      while true do
+        let line = input_line ic in
+        if line <> "" && line.[0] <> '#' then
+          match handle line with
+          | Some o -> output_string oc (o ^ "\n")
+          | None -> ()
+      done
+    with End_of_file -> ());
+    close_out oc
+  end
